@@ -65,7 +65,7 @@ func (c *rangeAppendAllChecker) getValidAppendFrom(expr ast.Node) *ast.Ident {
 	if len(call.Args) != 2 || call.Ellipsis == token.NoPos {
 		return nil
 	}
-	if qualifiedName(call.Fun) != "append" {
+	if !isBuiltinFunc(c.ctx.TypesInfo, call.Fun, "append") {
 		return nil
 	}
 	if c.isSliceLiteral(call.Args[0]) {
